@@ -2,7 +2,7 @@
 
 package otto
 
-// C08-H7: push / pop / shift / unshift / reverse / concat (ES5 15.4.4.4-13) on
+// C08-H7: push / pop / shift / unshift / reverse / concat / map / splice (ES5 15.4.4) on
 // arrays of 0..3 slots where each slot is a hole or holds a symbolic double:
 // length, which indices exist afterwards (holes move with their neighbours and
 // stay holes), the element values and the return value, against a sparse-array
@@ -70,7 +70,7 @@ func VerifH_C08_mutators() {
 		verifAssert(false, "setup")
 		return
 	}
-	op := verifChoose(6)
+	op := verifChoose(8)
 	var want []verifSlot
 	var ret verifSlot // has=false: undefined
 	retIsArray := false
@@ -107,6 +107,12 @@ func VerifH_C08_mutators() {
 			want[n-1-i] = cur[i]
 		}
 		ret = verifSlot{true, 1}
+	case 6:
+		script = "var r = a.map(function (v) { return v })"
+		want = append([]verifSlot{}, cur...)
+	case 7:
+		script = "var r = a.splice(0, a.length)"
+		want = []verifSlot{}
 	default:
 		script = "var r = a.concat([y, , z], y, [[z]].length)"
 		retIsArray = true
@@ -121,6 +127,11 @@ func VerifH_C08_mutators() {
 	}
 	got, okObs := verifObserveArray(vm, "a")
 	verifAssert(okObs && verifSlotsEqual(got, want), "15.4.4: receiver afterwards (length, holes, values)")
+	if op == 6 || op == 7 {
+		r, okR := verifObserveArray(vm, "r")
+		verifAssert(okR && verifSlotsEqual(r, cur), "15.4.4.19 map / 15.4.4.12 splice: the result has the receiver's elements and its holes")
+		return
+	}
 	if retIsArray {
 		r, okR := verifObserveArray(vm, "r")
 		wantR := append(append([]verifSlot{}, cur...), verifSlot{true, y}, verifSlot{}, verifSlot{true, z}, verifSlot{true, y}, verifSlot{true, 1})
